@@ -59,4 +59,13 @@ CHECKS = {
         ],
         "race_attrib": [r"state\.\(\*MemPool\)\.", r"state\.\(\*TxTracker\)\."],
     },
+    "C08": {
+        "level": "exploration",
+        "technique": "runtime monitoring: differential monitor of Node.IsRelevant against an independent script walker and a multiset subscription model over grammar-generated transactions",
+        "level_text": "Each case drives a fresh node through a random subscribe/unsubscribe/contract sequence and judges ten grammar-generated transactions after every step: the harness' own 40-line script walker lists the complete pushes, a multiset model holds the subscriptions, and Tokenized action outputs of every action code (plus truncated and mutated envelopes) are planted. Disagreement in either direction or a panic is a violation. Exploration: the input space is unbounded; the grammar plants matching, hashing-to and one-bit-off pushes in every position and truncates scripts at every kind of push.",
+        "level_note": "Trusted: bitcoin.Hash160, protocol.Serialize for building action outputs. Not judged (ambiguous in the statement): 20-byte pushes whose hash160 is subscribed, implied data of OP_1..16, mutated envelopes while contract subscription is on.",
+        "runs": [
+            {"pkg": "internal/spynode", "test": "TestVerif_C08"},
+        ],
+    },
 }
